@@ -461,22 +461,28 @@ class Autoscaler(AutoscalerBase):
         if not self._has_scaling:
             return desvar_multipliers, con_multipliers
 
-        # Get the objective scaler from cached combined scalers
+        def _combined_scaler(meta):
+            # total_scaler holds the user scaling only; the unit conversion factor applied to
+            # values and totals is kept separately in unit_scaler.
+            scaler = meta['total_scaler']
+            if scaler is None:
+                scaler = 1.0
+            unit_scaler = meta.get('unit_scaler')
+            if unit_scaler is not None:
+                scaler = scaler * unit_scaler
+            return scaler
+
         obj_meta = self._var_meta['objective']
         obj_name = list(obj_meta.keys())[0]
-        obj_scaler = obj_meta[obj_name]['total_scaler'] or 1.0
+        obj_scaler = _combined_scaler(obj_meta[obj_name])
 
         if desvar_multipliers:
             for name, mult in desvar_multipliers.items():
-                # Get the design variable scaler from cached combined scalers
-                scaler = self._var_meta['design_var'][name]['total_scaler'] or 1.0
-                mult *= scaler / obj_scaler
+                mult *= _combined_scaler(self._var_meta['design_var'][name]) / obj_scaler
 
         if con_multipliers:
             for name, mult in con_multipliers.items():
-                # Get the constraint scaler from cached combined scalers
-                scaler = self._var_meta['constraint'][name]['total_scaler'] or 1.0
-                mult *= scaler / obj_scaler
+                mult *= _combined_scaler(self._var_meta['constraint'][name]) / obj_scaler
 
         return desvar_multipliers, con_multipliers
 
